@@ -332,16 +332,29 @@ theorem reqsOk_iff (es : List (Edge α)) (reqs : List (α × α)) :
     reqsOk es reqs = true ↔ ∀ rt ∈ reqs, Star (Need es) rt.1 rt.2 := by
   simp only [reqsOk, List.all_eq_true, decide_eq_true_eq, mem_reachSet_iff]
 
+/-! ### clauses 6, 7 -/
+
+theorem poolsB_iff (g : Graph α) :
+    poolsB g = true ↔ (∀ e ∈ g.edges, e.pool = [] ∨ e.pool = console ∨ e.pool ∈ g.pools) ∧
+      (g.pools.Nodup ∧ console ∉ g.pools) := by
+  simp only [poolsB, poolOk, Bool.and_eq_true, List.all_eq_true, Bool.or_eq_true, decide_eq_true_eq, nodupB_iff,
+    Bool.not_eq_true', decide_eq_false_iff_not, or_assoc, and_assoc]
+
+theorem defaultsB_iff (g : Graph α) :
+    defaultsB g = true ↔ ∀ d ∈ g.defaults, ∃ e ∈ g.edges, d ∈ e.outs := by
+  simp only [defaultsB, List.all_eq_true, producedBy_iff]
+
 /-! ### the checker -/
 
 theorem wellFormed_iff (g : Graph α) (fs : List α) (reqs : List (α × α)) :
     wellFormed g fs reqs = true ↔ WellFormed g fs reqs := by
   simp only [wellFormed, Bool.and_eq_true, rulesDefined_iff, outputsDisjoint_iff, acyclicB_iff, closedB_iff,
-    reqsOk_iff]
+    reqsOk_iff, poolsB_iff, defaultsB_iff]
   constructor
-  · intro ⟨⟨⟨⟨h1, h2, h2'⟩, h3⟩, h4⟩, h5⟩
-    exact ⟨h1, h2, h2', h3, h4, h5⟩
+  · intro ⟨⟨⟨⟨⟨⟨h1, h2, h2'⟩, h3⟩, h4⟩, h5⟩, h6, h6'⟩, h7⟩
+    exact ⟨h1, h2, h2', h3, h4, h5, h6, h6', h7⟩
   · intro h
-    exact ⟨⟨⟨⟨h.rules, h.uniqueIn, h.uniqueAcross⟩, h.acyclic⟩, h.closed⟩, h.reach⟩
+    exact ⟨⟨⟨⟨⟨⟨h.rules, h.uniqueIn, h.uniqueAcross⟩, h.acyclic⟩, h.closed⟩, h.reach⟩, h.poolsBound, h.poolsUnique⟩,
+      h.defaultsProduced⟩
 
 end MesonModel.Ninja
